@@ -240,6 +240,18 @@ where
     }
 }
 
+/// A receiver in transport, borrowing the parts of the receiver being serialized.
+///
+/// Serialization must not consume the receiver, since the item containing it
+/// may be serialized more than once (buffered attempt followed by streaming).
+#[derive(Serialize)]
+#[serde(rename = "TransportedReceiver")]
+#[serde(bound(serialize = "Codec: codec::Codec"))]
+struct TransportedReceiverRef<'a, Codec> {
+    bin_receiver: &'a bin::Receiver,
+    size: &'a SizeInfo<Codec>,
+}
+
 impl<Codec> Serialize for Receiver<Codec>
 where
     Codec: codec::Codec,
@@ -248,19 +260,17 @@ where
     where
         S: serde::Serializer,
     {
-        let bin_receiver =
-            self.bin_receiver.lock().unwrap().take().ok_or_else(|| {
-                serde::ser::Error::custom("cannot serialize: channel already connected or closed")
-            })?;
+        let bin_receiver = self.bin_receiver.lock().unwrap();
+        let bin_receiver = bin_receiver.as_ref().ok_or_else(|| {
+            serde::ser::Error::custom("cannot serialize: channel already connected or closed")
+        })?;
 
-        let size = self
-            .size_info
-            .lock()
-            .unwrap()
-            .take()
+        let size = self.size_info.lock().unwrap();
+        let size = size
+            .as_ref()
             .ok_or_else(|| serde::ser::Error::custom("cannot serialize: size info already consumed"))?;
 
-        TransportedReceiver::<Codec> { bin_receiver, size }.serialize(serializer)
+        TransportedReceiverRef::<Codec> { bin_receiver, size }.serialize(serializer)
     }
 }
 
